@@ -471,6 +471,7 @@ func TestVerifC09(t *testing.T) {
 				e.hist = append(e.hist, "SetDueNext(Full)")
 			case c < 9:
 				fnBefore := fileExistsC09(e.str.fullNeededPath)
+				e.reapPlanOracle()
 				_, _, rerr := e.str.Reap()
 				res := "ok"
 				if rerr != nil {
@@ -520,6 +521,118 @@ func TestVerifC09(t *testing.T) {
 		allImpl = append(allImpl, e.impl)
 	}
 	rep.vfCompareSegments("snapcat", allOps, allImpl)
+}
+
+// c09Listing lists every file below dir with its size.
+func c09Listing(dir string) string {
+	var l []string
+	filepath.Walk(dir, func(p string, fi os.FileInfo, err error) error {
+		if err == nil && p != dir {
+			rel, _ := filepath.Rel(dir, p)
+			if fi.IsDir() {
+				l = append(l, rel+"/")
+			} else {
+				l = append(l, fmt.Sprintf("%s:%d", rel, fi.Size()))
+			}
+		}
+		return nil
+	})
+	sort.Strings(l)
+	return strings.Join(l, " ")
+}
+
+// reapPlanOracle runs the REAL reapInternal on a copy of the store directory, with the plan path
+// pointed at a non-empty directory: a plan, if one is written, stays in <path>.tmp and nothing is
+// executed. A reap that changes the copy although no plan reached the disk violates "the plan is
+// on disk before anything is touched" (C07.plan_written_before_mutation, on which C09's treatment of
+// reap rests). Its consequence is then shown on the copy: a crash between the removals of such a
+// reap (the first removed directory gone, the others still there; then the second one half
+// removed), NewStore, ListAll and Open of every listed snapshot.
+func (e *c09Env) reapPlanOracle() {
+	base := filepath.Dir(e.dir)
+	scratch, block := filepath.Join(base, "reapcopy"), filepath.Join(base, "planblock")
+	fresh := func() *Store {
+		os.RemoveAll(scratch)
+		if err := copyDir(e.dir, scratch); err != nil {
+			e.t.Fatalf("copy store: %v", err)
+		}
+		str, err := NewStore(scratch)
+		if err != nil {
+			e.t.Fatalf("NewStore on a copy of the store: %v (history %v)", err, e.hist)
+		}
+		str.fatalFn = nil
+		str.reapDisabled.Set()
+		return str
+	}
+	str := fresh()
+	before := c09Listing(scratch)
+	os.RemoveAll(block)
+	os.Remove(block + ".tmp")
+	os.MkdirAll(filepath.Join(block, "x"), 0o755)
+	str.reapPlanPath = block
+	str.reapInternal()
+	str.Close()
+	_, perr := os.Stat(block + ".tmp")
+	os.Remove(block + ".tmp")
+	after := c09Listing(scratch)
+	if after == before || perr == nil {
+		if after != before {
+			e.t.Fatalf("harness: plan capture executed a plan (history %v)", e.hist)
+		}
+		return
+	}
+	e.rep.Fail("reap-mutates-without-plan", fmt.Sprintf("history %v then reap: snapshot directories removed although no REAP_PLAN was written: before [%s] after [%s]", e.hist, before, after),
+		map[string]interface{}{"history": e.hist})
+	// which directories did it remove (in the order RemoveAll is applied: oldest first)?
+	gone := []string{}
+	ents, _ := os.ReadDir(e.dir)
+	for _, en := range ents {
+		if en.IsDir() && !fileExistsC09(filepath.Join(scratch, en.Name())) {
+			gone = append(gone, en.Name())
+		}
+	}
+	sort.Slice(gone, func(i, j int) bool { return e.nat(gone[i]) < e.nat(gone[j]) })
+	for cut := 0; cut < 2*len(gone); cut++ {
+		k, partial := cut/2, cut%2 == 1 // the first k directories are gone; optionally the next one is half removed
+		if k == 0 && !partial {
+			continue
+		}
+		str = fresh()
+		str.Close()
+		what := ""
+		for i, g := range gone {
+			if i < k {
+				os.RemoveAll(filepath.Join(scratch, g))
+				what += " " + g + ":removed"
+			} else if i == k && partial {
+				os.Remove(metaPath(filepath.Join(scratch, g)))
+				what += " " + g + ":meta.json-removed"
+			}
+		}
+		problems := []string{}
+		if s2, err := NewStore(scratch); err != nil {
+			problems = append(problems, "NewStore: "+err.Error())
+		} else {
+			s2.fatalFn = nil
+			s2.reapDisabled.Set()
+			if metas, err := s2.ListAll(); err != nil {
+				problems = append(problems, "ListAll: "+err.Error())
+			} else {
+				for _, m := range metas {
+					if _, rc, err := s2.Open(m.ID); err != nil {
+						problems = append(problems, "Open("+m.ID+"): "+err.Error())
+					} else {
+						rc.Close()
+					}
+				}
+			}
+			s2.Close()
+		}
+		if len(problems) > 0 {
+			e.rep.Fail("catalog-broken-after-crash-in-unplanned-reap", fmt.Sprintf("history %v then reap crashing with [%s ] and no plan to resume, restart: %s", e.hist, what, strings.Join(problems, "; ")),
+				map[string]interface{}{"history": e.hist, "crash": what})
+		}
+	}
 }
 
 func fileExistsC09(p string) bool { _, err := os.Stat(p); return err == nil }
